@@ -177,6 +177,13 @@ def run_shard(spec):
         work = [(tag, src, args, w, True) for tag, src, args in work for w in spec['words']]
         if spec['part'] == 0:
             work += [('guarded-constant-index', GUARDED, [n], w, False) for n in ('3', '200') for w in (2, 3)]
+        # statements and calls an optimiser might be tempted to treat differently once the checks are off
+        from ..gen import idioms
+        for gen, argsets in ((idioms.exprstmt_programs, idioms.EXPRSTMT_ARGS), (idioms.tailcall_programs, idioms.TAILCALL_ARGS),
+                             (idioms.capture_scalar_programs, [['1']]), (idioms.narrowing_programs, idioms.NARROW_ARGS[:2]), (idioms.fresh_literal_programs, idioms.FRESH_ARGS[:1])):
+            for k, (tag, prog) in enumerate(gen()):
+                if k % spec['parts'] == spec['part']:
+                    work += [(tag, A.render(prog), a, 2 + k % 3, False) for a in argsets]
         # function bodies built from exit shapes (terminal calls all_is_win / all_is_broken included), enumerated and random
         from ..gen import exits
         for k, (tag, prog, ret) in enumerate(exits.loop_exit_programs()):
